@@ -85,9 +85,6 @@ Record mbus := mk_mbus {
   mb_mp : option Z                   (* _max_persist *)
 }.
 
-Definition count_true (bs : list bool) : Z := Z.of_nat (length (filter (fun b => b) bs)).
-Definition all_true (bs : list bool) : bool := forallb (fun b => b) bs.
-
 Fixpoint set_nth {A} (n : nat) (x : A) (l : list A) : list A :=
   match l, n with
   | [], _ => []
